@@ -166,6 +166,32 @@ def run(R):
                 R.mon["boundary_bulkwalks"] += 1
                 if ys is not None and bulk == 3:
                     run_one(R, "v3-sha1-priv", roots, db, "pybulkwalk", bulk, policy, 5, label)
+    if R.shard == 3 % R.nshards:
+        # responses cut below one row only ONCE (later ones complete), a buffer that holds
+        # one binding per response, and a device that reboots in the middle of the walk
+        rng = R.rng("once")
+        for j in range(12 if R.tier == "quick" else 120):
+            roots, db = wc.gen_case(rng)
+            if len(roots) < 2:
+                continue
+            for policy in ("partial_first_once:1", "partial_first_once:2", "partial_first_once:3", "one_binding"):
+                for bulk in (2, 3, 10):
+                    for order in (roots, list(reversed(roots))):
+                        run_one(R, "v2c", order, db, "bulkwalk", bulk, policy, j, "cut-once")
+                        R.mon["cut_once_walks"] += 1
+        big = {(1, 3, 6, 1, 4, 1, 77, 1, i): ("int", i) for i in range(1, 31)}
+        big.update({(1, 3, 6, 1, 4, 1, 77, 2, i): ("str", b"x" * i) for i in range(1, 12)})
+        for level in rig.AUTH_LEVELS:
+            for reboot_at in (2, 3, 5):
+                for bulk in (3, 10):
+                    outcome, ys, w = wc.run_walk(level, big, [(1, 3, 6, 1, 4, 1, 77, 1), (1, 3, 6, 1, 4, 1, 77, 2)], "bulkwalk", bulk=bulk, policy="full", reboot_at=reboot_at)
+                    case = {"level": level, "api": "bulkwalk", "bulk": bulk, "policy": "full", "policy_seed": 0, "roots": [[1, 3, 6, 1, 4, 1, 77, 1], [1, 3, 6, 1, 4, 1, 77, 2]], "db": wc.enc_db(big), "reboot_at": reboot_at}
+                    R.case(("c02-reboot", level, bulk, reboot_at), True)
+                    R.mon["walks_with_a_reboot_midway"] += 1
+                    if outcome != "ok":
+                        R.violation(case, "the device rebooted before request %d of the bulk walk; the walk gave %r (a GETNEXT walk re-synchronises and carries on)" % (reboot_at, outcome), None)
+                    elif wc.judge(ys, big, case["roots"] and [tuple(r) for r in case["roots"]]):
+                        R.violation(case, "bulk walk across a reboot: %r" % (rig.jsonable(wc.judge(ys, big, [tuple(r) for r in case["roots"]])[:3]),), None)
     if R.shard == 0:
         corner = [
             ([(1, 3, 1), (1, 3, 2)], {(1, 3, 2, 1): ("int", 1), (1, 3, 2, 2): ("int", 2), (1, 3, 3, 0): ("int", 3)}),
@@ -181,6 +207,12 @@ def run(R):
 
 def replay(R, v):
     c = v["case"]
+    if c.get("reboot_at"):
+        outcome, ys, w = wc.run_walk(c["level"], wc.dec_db(c["db"]), [tuple(r) for r in c["roots"]], "bulkwalk", bulk=c["bulk"], policy="full", reboot_at=c["reboot_at"])
+        if outcome != "ok" or wc.judge(ys, wc.dec_db(c["db"]), [tuple(r) for r in c["roots"]]):
+            R.violation(c, "bulk walk across a reboot: %r" % (outcome,), None)
+        R.evaluations += 1
+        return
     run_one(
         R, c["level"], [tuple(r) for r in c["roots"]], wc.dec_db(c["db"]), c["api"],
         c["bulk"], c["policy"], c["policy_seed"], "replay",
